@@ -70,6 +70,10 @@ CLAIMED['C10'] = ('Coq theorems over Model/Inputs.v on top of Status.v/History.v
          'proof: whenever a task must run (other than through the uptodate-false early exit) `changed` contains every file dependency without saved state or modified w.r.t. the last successful execution by the checker rule; getargs values (single and group sources, key or whole dict) are exactly those of the source task\'s most recent successful execution after ANY history, errors included, and the source has finished before the consumer starts (from C01); dependencies/targets are the current ones; calc_dep results are merged into the dependent before it is handed to the runner.  PARTIAL: the trace-level ordering theorem for tasks returned by calc_dep results (C10_calc_dep_effective_partial).  KNOWN finding: changed == [] when an uptodate item is false (pinned by existing tests)',
          'trusted: Coq kernel; hand model tied by 752 (quick) / ~3700 (thorough) compared cases from real sessions (serial, -n 2, -n 2 -P thread; json/dbm/sqlite3); inspect-based kwargs binding, %-formatting, md5, set iteration order are oracles; task params/pos_arg and result_dep on group sources not modelled',
          'DESIGN.md 5-C10')
+CLAIMED['C06'] = ('Coq theorems over Model/Crash.v: interrupt half on the serial runner model (flush-once-before-teardowns trace shape, DB effect through the C07 refinement), kill half on step models of JsonDB.dump / sqlite commit / CPython dbm.dumb (crash_after k for every k) + interrupt sweep and strace SIGKILL sweep over every DB syscall on the real code',
+         'PARTIAL proof: (interrupt) if an action raises KeyboardInterrupt/SystemExit the trace is pre ++ [EExecute k; EClose; teardowns], every success in pre was saved before, k is neither saved nor reported, and on the abstract map exactly the saved tasks gain records; every non-fuel stop flushes the DB once; (kill) every crash state of JsonDB.dump is old / new / proper prefix (refused by _load under the J-prefix oracle), sqlite is old or new (atomic commit trusted), for the byte-level dbm.dumb model each key reads old / new / absent / torn / index unreadable and well-formedness is preserved across any number of killed sessions.  The on-disk behaviour of dbm.dumb/sqlite3/the kernel (syscall atomicity, journal recovery, undecodable records) is swept, not proved',
+         'trusted: Coq kernel; models tied by 66 (quick) / 948 (thorough) interrupt runs compared with Runner.v, 202 / 543 strace kill points judged by the soundness oracle on the next run, simulated torn writes, dbm.dumb step model vs the real module; JSON decoder oracles (J_prefix, R_prefix, R_extra); each syscall atomic and in program order under SIGKILL',
+         'DESIGN.md 5-C06')
 NOT_YET = {}
 
 def main():
